@@ -91,6 +91,11 @@ func c12Compare(db *sql.DB, lib *updog.Index, c c12Case) (viol string) {
 	if !reflect.DeepEqual(cols, wantCols) {
 		return fmt.Sprintf("columns %v, expected %v", cols, wantCols)
 	}
+	defer func() { // the caller owns the slice: it renames the headers in place when it is done
+		for i := range cols {
+			cols[i] = "\x00SCRIBBLED " + strings.ToUpper(cols[i])
+		}
+	}()
 	cts, err := rows.ColumnTypes()
 	if err != nil {
 		return err.Error()
@@ -156,6 +161,7 @@ func c12Texts(thorough bool) ([]*model.Expr, [][]string) {
 // c12Render reads a result set completely.
 func c12Render(rows *sql.Rows) string {
 	cols, _ := rows.Columns()
+	cols = append([]string{}, cols...) // scanAll scribbles over the driver's slice after reading
 	s, err := scanAll(rows)
 	if err != nil {
 		return "scan error: " + err.Error()
